@@ -27,10 +27,15 @@ def step (line : String) : String :=
   | some t, some r, some rg, some reg =>
     match decEntries t, (Sexp.parse r).bind decResult, Sexp.parse rg, Sexp.parse reg with
     | some es, some (.ok txns raw), some (.list ranges), some (.list regs) =>
-      -- declared precisions: from the model's own run over the tree
-      let prec : String → Option Nat := match process es with
-        | .ok st => st.ctx.prec
-        | _ => fun _ => none
+      -- declared precisions
+      -- (taken from the `commodity … format` declarations alone, so that it does not depend on whether the
+      -- model accepts the ledger)
+      let fm : AMap String Nat := es.foldl (fun m e =>
+        match e with
+        | .commodity name details =>
+          details.foldl (fun m d => match d with | .format v _ => AMap.insert m name v.scale | _ => m) m
+        | _ => m) []
+      let prec : String → Option Nat := fun c => AMap.get? fm c
       let bad := ranges.filterMap fun rr =>
         match rr with
         | .list [s, e, b] =>
